@@ -594,7 +594,7 @@ def meta_clash_scenarios(ctx, out):
     model = common.Model() if os.path.exists(os.path.join(common.BUILD, 'modelrun')) else None
     n = 260 if ctx.tier != 'thorough' else 5000
     st = {'graphs': 0, 'edits': 0, 'queries': 0, 'clash_lookups': 0, 'clash_lookups_across_branches': 0,
-          'probes': 0, 'lin_differ': 0, 'model_compared': 0}
+          'probes': 0, 'lin_differ': 0, 'model_compared': 0, 'redundant_added': 0, 'covering_link_removed': 0}
     sample = None
     for gi in range(n):
         ncls = rng.randrange(3, 7)
@@ -791,15 +791,31 @@ def meta_clash_scenarios(ctx, out):
         for step in range(rng.randrange(2, 9)):
             if not state['ok']:
                 break
-            k = rng.choice(['add-super', 'add-super', 'remove-super', 'add-feature', 'add-feature', 'remove-feature'])
+            k = rng.choice(['add-super', 'add-super', 'remove-super', 'add-feature', 'add-feature', 'remove-feature',
+                            'add-redundant', 'remove-covering'])
             c = rng.randrange(ncls)
+            fd = None
+            if k == 'add-redundant':      # a class already inherited through another super type becomes a direct one too
+                cands = [(c2, d2) for c2 in range(ncls) for d2 in _closure(sup, c2) if d2 not in sup[c2]]
+                rng.shuffle(cands)
+                if not any(try_super(c2, d2) for (c2, d2) in cands[:4]):
+                    continue
+                st['redundant_added'] += 1
+            elif k == 'remove-covering':  # ... and the link that made a direct super type redundant is removed
+                cands = [(b, a) for b in range(ncls) for a in sup[b]
+                         if any(a in sup[c2] and b in _closure(sup, c2) for c2 in range(ncls))]
+                if not cands:
+                    continue
+                c, fd = rng.choice(cands)
+                k = 'remove-super'
+                st['covering_link_removed'] += 1
             if k == 'add-super':
                 if not try_super(c, rng.randrange(ncls)):
                     continue
             elif k == 'remove-super':
                 if not sup[c]:
                     continue
-                d = rng.choice(sup[c])
+                d = rng.choice(sup[c]) if fd is None else fd
                 how = rng.choice(['remove', 'pop'])
                 if how == 'remove':
                     classes[c].eSuperTypes.remove(classes[d])
@@ -831,6 +847,8 @@ def meta_clash_scenarios(ctx, out):
     out.coverage['metaclash_lookups_clash_between_unrelated_classes'] = st['clash_lookups_across_branches']
     out.coverage['metaclash_instance_probes'] = st['probes']
     out.coverage['metaclash_lookups_where_c3_and_depth_first_differ'] = st['lin_differ']
+    out.coverage['metaclash_redundant_super_types_added'] = st['redundant_added']
+    out.coverage['metaclash_links_removed_that_made_a_direct_super_type_redundant'] = st['covering_link_removed']
     out.coverage['metaclash_sample'] = sample
 
 
@@ -916,7 +934,8 @@ def generic_scenarios(ctx, out):
     rng = common.rng_for(ctx.seed, 'C19:generic')
     n = 400 if ctx.tier != 'thorough' else 5000
     st = {'graphs': 0, 'edits': 0, 'class_views': 0, 'object_views': 0, 'mixed_chain_views': 0, 'generic_edits': 0,
-          'children_in_slot_inherited_through_generic': 0, 'isinstance_checks': 0, 'raised': 0, 'inst_ops': 0}
+          'children_in_slot_inherited_through_generic': 0, 'isinstance_checks': 0, 'raised': 0, 'inst_ops': 0,
+          'redundant_added': 0, 'covering_link_removed': 0, 'views_with_redundant_super': 0}
     sample = None
     for gi in range(n):
         ncls = rng.randrange(3, 7)
@@ -1004,6 +1023,8 @@ def generic_scenarios(ctx, out):
                 anc = closure(c)
                 if any(gen[d] for d in anc) and sup[c]:
                     st['mixed_chain_views'] += 1
+                if any(d in closure(e) for d in both(c) for e in both(c) if e != d):
+                    st['views_with_redundant_super'] += 1
                 want = sorted(f['name'] for f in feats_of(c))
                 wrefs = sorted(f['name'] for f in feats_of(c) if f['ref'])
                 wattrs = sorted(f['name'] for f in feats_of(c) if not f['ref'])
@@ -1197,22 +1218,43 @@ def generic_scenarios(ctx, out):
             if not state['ok']:
                 break
             k = rng.choice(['add-super', 'add-generic', 'add-generic', 'remove-super', 'remove-generic', 'retarget-generic',
-                            'add-feature', 'remove-feature', 'instances', 'instances', 'instances'])
+                            'add-feature', 'remove-feature', 'instances', 'instances', 'instances',
+                            'add-redundant', 'add-redundant', 'remove-covering', 'remove-covering'])
             c = rng.randrange(ncls)
+            fd = None                  # (a chosen target instead of a random one)
             if k == 'instances':
                 for _ in range(rng.randrange(1, 5)):
                     inst_op()
                 check_inst()
                 continue
+            if k == 'add-redundant':
+                # a class that is ALREADY inherited through another super type becomes a direct one as well
+                cands = [(c2, d2, ch) for c2 in range(ncls) for d2 in closure(c2) if d2 not in both(c2)
+                         for ch in ('plain', 'plain', 'generic') if acceptable(c2, d2, ch)]
+                if not cands:
+                    continue
+                c, fd, ch = rng.choice(cands)
+                k = 'add-super' if ch == 'plain' else 'add-generic'
+                st['redundant_added'] += 1
+            elif k == 'remove-covering':
+                # ... and the link that made a direct super type redundant goes away: b -> a while some class holds a
+                # directly and reaches b
+                cands = [(b, a) for b in range(ncls) for a in both(b)
+                         if any(a in both(c2) and b in closure(c2) for c2 in range(ncls))]
+                if not cands:
+                    continue
+                c, fd = rng.choice(cands)
+                k = 'remove-super' if fd in sup[c] else 'remove-generic'
+                st['covering_link_removed'] += 1
             if k == 'add-super':
-                d = rng.randrange(ncls)
+                d = rng.randrange(ncls) if fd is None else fd
                 if not acceptable(c, d, 'plain'):
                     continue
                 K[c].eSuperTypes.append(K[d])
                 sup[c].append(d)
                 hist.append(['add-super', c, d])
             elif k == 'add-generic':
-                d = rng.randrange(ncls)
+                d = rng.randrange(ncls) if fd is None else fd
                 if not acceptable(c, d, 'generic'):
                     continue
                 mode = rng.choice(['classifier-set-before', 'classifier-set-after'])
@@ -1229,27 +1271,31 @@ def generic_scenarios(ctx, out):
             elif k == 'remove-super':
                 if not sup[c]:
                     continue
-                reset()
-                d = rng.choice(sup[c])
-                K[c].eSuperTypes.remove(K[d])
+                d = rng.choice(sup[c]) if fd is None else fd
+                before = {x: sorted(closure(x)) for x in set(ocls)}
                 sup[c].remove(d)
+                if any(sorted(closure(x)) != before[x] for x in before):
+                    reset()            # (instances whose class inherits the same as before stay and are checked)
+                K[c].eSuperTypes.remove(K[d])
                 hist.append(['remove-super', c, d])
             elif k == 'remove-generic':
                 if not gen[c]:
                     continue
-                reset()
-                i = rng.randrange(len(gen[c]))
+                i = rng.randrange(len(gen[c])) if fd is None else [t for (t, _) in gen[c]].index(fd)
                 how = rng.choice(['remove', 'pop'])
-                hist.append(['remove-generic', c, gen[c][i][0], how])
+                before = {x: sorted(closure(x)) for x in set(ocls)}
+                gone = gen[c].pop(i)
+                if any(sorted(closure(x)) != before[x] for x in before):
+                    reset()
+                hist.append(['remove-generic', c, gone[0], how])
                 try:
                     if how == 'remove':
-                        K[c].eGenericSuperTypes.remove(gen[c][i][1])
+                        K[c].eGenericSuperTypes.remove(gone[1])
                     else:
                         K[c].eGenericSuperTypes.pop(i)
                 except Exception as e:  # noqa
                     fail('meta-edit-raises', f'K{c}.eGenericSuperTypes.{how}(...) raised {type(e).__name__}: {e}')
                     break
-                del gen[c][i]
                 st['generic_edits'] += 1
             elif k == 'retarget-generic':
                 if not gen[c]:
@@ -1298,6 +1344,9 @@ def generic_scenarios(ctx, out):
     out.coverage['generic_object_views_checked'] = st['object_views']
     out.coverage['generic_children_in_slot_inherited_through_generic_edge'] = st['children_in_slot_inherited_through_generic']
     out.coverage['generic_stores_refused'] = st['raised']
+    out.coverage['generic_redundant_super_types_added'] = st['redundant_added']
+    out.coverage['generic_links_removed_that_made_a_direct_super_type_redundant'] = st['covering_link_removed']
+    out.coverage['generic_class_views_with_a_redundant_direct_super_type'] = st['views_with_redundant_super']
     out.coverage['generic_sample'] = sample
 
 
